@@ -14,7 +14,7 @@ critical sections (random schedules + stateless DFS over tiny programs); `fvdrv_
 on the model: the step must be enabled for that thread, its outcome / return value must be the model's, and
 after every scheduling decision the implementation's `current_cost` and resident map must equal the model's.
 
-Used by the property scripts of C11, C13, C16:
+Used by the property scripts of C11, C12, C13, C16:
     from props import cacheconc; cacheconc.obligations(ctx); cacheconc.tie(ctx)
 """
 import json
@@ -23,19 +23,20 @@ import shlex
 from vlib import VERIF
 
 MODULE = "Fv.Props.C16Conc"            # imports Fv.Props.CacheConc
-EXTRA_MODULES = ("Fv.Props.C11Conc", "Fv.Props.C13Conc")
+EXTRA_MODULES = ("Fv.Props.C11Conc", "Fv.Props.C13Conc", "Fv.Props.C12Conc")
 
 
 def _read(name):
     return [l.strip() for l in open(os.path.join(VERIF, "props", name)) if l.strip() and not l.startswith("#")]
 
 
-THEOREMS_BY_PROP = {"C11": _read("C11conc.theorems"), "C13": _read("C13conc.theorems"), "C16": _read("C16conc.theorems")}
-THEOREMS = [t for p in ("C11", "C13", "C16") for t in THEOREMS_BY_PROP[p]]
+THEOREMS_BY_PROP = {"C11": _read("C11conc.theorems"), "C12": _read("C12conc.theorems"), "C13": _read("C13conc.theorems"), "C16": _read("C16conc.theorems")}
+THEOREMS = [t for p in ("C11", "C12", "C13", "C16") for t in THEOREMS_BY_PROP[p]]
 
 # which harness monitor signatures speak about which property
 SIG_PREFIXES = {
     "C11": ("conc:read-", "conc:remove-returned", "conc:compute-", "conc:or_insert-", "conc:map-changed"),
+    "C12": ("conc:expiry:",),
     "C13": ("conc:accounting:",),
     "C16": ("conc:listener:",),
 }
